@@ -228,7 +228,11 @@ func (c *Collection) chunks() int {
 	}
 
 	max, _ := c.fill.Max()
-	return int(commit.ChunkAt(max) + 1)
+	chunks := int(commit.ChunkAt(max) + 1)
+	if chunks > len(c.commits) {
+		chunks = len(c.commits) // blocks only reserved by in-flight inserts are not committed yet
+	}
+	return chunks
 }
 
 // readChunk acquires appropriate locks for a chunk and executes a read callback.
